@@ -23,6 +23,7 @@ VARIABLES tid, l,
   disk,        \* [FIds -> Seq([ok, len, ty, rid, cid])]   cid: identity of the member's bytes
   jr,          \* [FIds -> [st, n]]
   bef,         \* content of the current archive when write_record was entered
+  curf,        \* the archive write_record was last entered for (99: none yet)
   lastFault,   \* [cls, before, after, j] when an I/O error left write_record
   sawFault,    \* an I/O error has been injected in this execution
   pre,         \* disk when the process was started
@@ -30,7 +31,7 @@ VARIABLES tid, l,
   refChanged,  \* a refused start-up modified a file
   fin          \* [has, files, sz, cdx, cdxon, cdxhdr]     full projection at the end of a fault-free process
 
-mvars == <<tid, l, disk, jr, bef, lastFault, sawFault, pre, startBad, refChanged, fin>>
+mvars == <<tid, l, disk, jr, bef, curf, lastFault, sawFault, pre, startBad, refChanged, fin>>
 
 Ev  == Batch[tid].ev
 Cur == Ev[l]
@@ -74,7 +75,7 @@ FullLines(cx) == [j \in 1..Len(cx) |->
 MInit ==
   /\ tid \in 1..NT /\ l = 1
   /\ disk = [f \in FIds |-> <<>>] /\ jr = [f \in FIds |-> JAbs]
-  /\ bef = <<>> /\ lastFault = NoFault /\ sawFault = FALSE
+  /\ bef = <<>> /\ curf = 99 /\ lastFault = NoFault /\ sawFault = FALSE
   /\ pre = [f \in FIds |-> <<>>] /\ startBad = FALSE /\ refChanged = FALSE
   /\ fin = NoFin
 
@@ -87,6 +88,7 @@ MNext ==
      /\ disk' = d2 /\ jr' = j2
      /\ sawFault' = (sawFault \/ (e.e = "op" /\ e.inj) \/ (e.e = "aend" /\ ~e.ok))
      /\ bef' = IF e.e = "abegin" THEN d2[e.fi] ELSE bef
+     /\ curf' = IF e.e = "abegin" THEN e.fi ELSE curf
      /\ lastFault' = IF e.e = "aend" /\ ~e.ok
                      THEN [cls |-> e.cls, before |-> bef, after |-> d2[e.fi], j |-> j2[e.fi]]
                      ELSE lastFault
@@ -104,7 +106,8 @@ MSpec == MInit /\ [][MNext]_mvars
 (* C06 - clause numbers are the bits of the verdict mask *)
 C06Bad ==
   LET crash == CrashOK(disk, jr, FIds) IN
-  {i \in 1..8 :
+  {i \in 1..9 :
+     \/ i = 9 /\ curf # 99 /\ ~JournalNamesOK(jr, FIds, curf, bef)     \* JournalNamesPreAppendLength
      \/ i = 1 /\ ~sawFault /\ ~crash                                  \* CrashRecoverable (no I/O error involved)
      \/ i = 2 /\ sawFault /\ ~crash                                   \* CrashRecoverable during / after error handling
      \/ i = 3 /\ lastFault.cls = "journal" /\ ~FaultContentOK(lastFault.cls, lastFault.before, lastFault.after)
